@@ -1528,6 +1528,7 @@ func (s *Server) publishSysTopics() {
 		s.Topics.RetainMessage(pk.Copy(false))
 		s.publishToSubscribers(pk)
 	}
+	atomic.StoreInt64(&s.Info.Retained, int64(s.Topics.Retained.Len())) // the $SYS messages are retained too
 
 	s.hooks.OnSysInfoTick(info)
 }
